@@ -71,7 +71,7 @@ class Rec:
             "op": str(op),
             "cls": str(cls),
             "attr": str(attr),
-            "detail": str(detail)[:600],
+            "detail": str(detail)[-1500:],
         }
         s = sig_str(f)
         if s in self._seen:
